@@ -287,9 +287,67 @@ def run(ctx: Ctx) -> None:
     rep.floor("C12.R7", n7, 2)
     n3 = passthrough_rules(ctx, "C12.R3")
     rep.floor("C12.R3", n3, 6)
+    rep.rule("C12.R8", "after the wrapper has stored a blob under a key, the object cached under that key (fetched before) is not served any more: every path from the completed "
+                       "`store_blob` of the wrapped store to the exit drops the key from the cache or puts the stored object itself there (the bare stores overwrite)")
+    n8 = store_refreshes_cache(ctx, "C12.R8")
+    rep.floor("C12.R8", n8, 1)
 
     # ---- R4 -------------------------------------------------------------------------------
     decode_cache_objects(ctx, wrap)
+
+
+def store_refreshes_cache(ctx: Ctx, rule: str) -> int:
+    """store_blob(k, v1); fetch_blob(k); store_blob(k, v2); fetch_blob(k): the bare stores answer v2.  The wrapper, which answers fetches from its cache first, must forget
+    (or replace) the entry of a key when it stores that key."""
+    rep = ctx.report
+    prog = ctx.prog
+    wrap, cache, cache_attr, store_attr, mapping = find_classes(ctx)
+    m = wrap.methods.get("store_blob")
+    if m is None:
+        return 0
+    cfg = cfg_of(m)
+    params = m.positional_params()
+    key_p = params[0] if params else "key"
+    blob_p = params[1] if len(params) > 1 else "blob"
+    # methods of the cache class that remove the key they are given (`self._cache.pop(key, None)`, `del self._cache[key]`)
+    removers = set()
+    for name, cm in cache.methods.items():
+        cps = cm.positional_params()
+        if not cps:
+            continue
+        for n in cm.own_nodes():
+            if isinstance(n, ast.Call) and isinstance(n.func, ast.Attribute) and n.func.attr == "pop" and isinstance(n.func.value, ast.Attribute) and n.func.value.attr == mapping \
+                    and n.args and isinstance(n.args[0], ast.Name) and n.args[0].id == cps[0]:
+                removers.add(name)
+            if isinstance(n, ast.Delete) and any(isinstance(t, ast.Subscript) and isinstance(t.value, ast.Attribute) and t.value.attr == mapping and isinstance(t.slice, ast.Name)
+                                                 and t.slice.id == cps[0] for t in n.targets):
+                removers.add(name)
+    adders = {name for name, cm in cache.methods.items() if name != "__init__" and any(_adds_key(n, mapping) for n in cm.own_nodes())}
+    n = 0
+    for c in [x for x in m.own_nodes() if _self_attr_call(x, store_attr) == "store_blob"]:
+        n += 1
+        refresh = []
+        for x in m.own_nodes():
+            mm = _self_attr_call(x, cache_attr)
+            if mm is None or not isinstance(x, ast.Call) or not x.args or not (isinstance(x.args[0], ast.Name) and x.args[0].id == key_p):
+                continue
+            if mm in removers:
+                refresh += done_nodes(cfg, x)
+            elif mm in adders and len(x.args) > 1 and isinstance(x.args[1], ast.Name) and x.args[1].id == blob_p:
+                refresh += done_nodes(cfg, x)
+        desc = f"after `{unparse(c, 50)}` the cache does not hold another object under the key"
+        bad_path = None
+        for d in done_nodes(cfg, c):
+            p = cfg.find_path([d], [cfg.exit], avoid=refresh)
+            if p is not None:
+                bad_path = p
+        if bad_path is None:
+            rep.ok(rule, m.qname, desc, m.loc(c))
+        else:
+            rep.bad(rule, m.qname, desc, m.loc(c), [f"{m.loc(c)}: the method returns without touching the cache entry of `{key_p}`",
+                    "store_blob(k, [1]); fetch_blob(k); store_blob(k, [2]); fetch_blob(k): the bare memory and local stores answer [2] (both overwrite), the wrapped one answers the cached [1] "
+                    "(demo: /verif/findings/F47_cache_serves_replaced_blob.py)"], "stale-after-store", what="the object cache serves the object fetched before the key was stored again")
+    return n
 
 
 def _through_locals(fl: Any, test: ast.AST, label: str, depth: int = 0) -> Tuple[ast.AST, str]:
